@@ -6,6 +6,7 @@
   MAC function with 20-byte output (HMAC-SHA1 in the driver).
 -/
 import Stun.Proofs.CanonicalDecode
+import Stun.Proofs.Encode
 namespace Stun.C03
 open Stun Stun.Msg Stun.Spec Stun.BuildProofs
 
@@ -88,6 +89,36 @@ theorem equal_agrees (m b : Msg) (h : Canonical m) (hm : m.method < 4096) (hc : 
     simp [aliasAttr, compat, this]
   rw [hmap] at h5
   exact ⟨equal_of_fields _ _ h1.symm h2.symm h4.symm h3.symm h5.symm, equal_of_fields _ _ h1 h2 h4 h3 h5⟩
+
+/-- `Encode` (WriteHeader + re-adding every attribute) on ANY struct whose attribute list is well-formed and fits
+    16 bits — whatever its raw bytes were before — yields a canonical message with the same content -/
+theorem encode_canonical (m : Msg) (htid : m.tid.length = 12) (hwf : AttrsWF m.attrs)
+    (hfit : (body m.attrs).length < 65536) (hne : m.attrs ≠ [] ∨ m.length = 0) :
+    Canonical m.encode ∧ m.encode.attrs = m.attrs ∧ m.encode.method = m.method ∧ m.encode.cls = m.cls ∧
+    m.encode.tid = m.tid :=
+  BuildProofs.encode_canonical m htid hwf hfit hne
+
+/-- decode-then-encode reproduces the canonical bytes: decoding the raw bytes of a canonical message into any message
+    object and calling `Encode` on the result gives back exactly those bytes (when no attribute uses the legacy
+    0x8020 number, which decoding reports under its alias) -/
+theorem decode_then_encode (m b : Msg) (h : Canonical m) (hm : m.method < 4096) (hc : m.cls < 4)
+    (hal : ∀ a ∈ m.attrs, a.typ ≠ 0x8020) (hb : (b.decodeFrom m.raw).1.len ≤ (b.decodeFrom m.raw).1.mem.length) :
+    (b.decodeFrom m.raw).1.encode.raw = m.raw := by
+  obtain ⟨_, h1, h2, h3, h4, h5, h6⟩ := canonical_decode m b h hm hc
+  have hmap : m.attrs.map aliasAttr = m.attrs := by
+    conv => rhs; rw [← List.map_id m.attrs]
+    apply List.map_congr_left
+    intro a ha
+    have := hal a ha
+    simp [aliasAttr, compat, this]
+  rw [hmap] at h5
+  -- the decoded struct is canonical: same fields, same raw bytes
+  generalize (b.decodeFrom m.raw).1 = d at *
+  have hd : Canonical d := by
+    refine ⟨hb, by rw [h4]; exact h.tidLen, rfl, ?_, by rw [h3, h5]; exact h.length, by rw [h3]; exact h.fits,
+      by rw [h5]; exact h.attrs⟩
+    rw [h6, h.raw, h3, h5]; simp only [headerL, h1, h2, h4]
+  rw [(encode_of_canonical _ hd).1, h6]
 
 -- non-vacuity: the empty Build is canonical and there are setters that fit
 example (mac : Bytes → Bytes → Bytes) : AllFit mac [.raw 0x8022 [1, 2, 3]] (({} : Msg).reset.writeHeader) := by
